@@ -115,21 +115,6 @@ def handle (s : St) (line : String) : St :=
   match words line with
   | ["case", id, "alg", a, "n", n, "workers", w, "L", l, "mode", m] =>
     { s with id := id, alg := algOf a, n := nat! n, workers := nat! w, L := nat! l, controlled := m == "controlled" }
-  | "pool" :: toks =>
-    let (maxId, maxW) := maxIds toks
-    match replay (Pool.S.init s.n s.workers s.L) (hoistFirstLoops toks) maxId maxW with
-    | .error e => s.say false "pool-trace" e
-    | .ok fin =>
-      let s := s.say true s!"pool-trace {toks.length}"
-      -- consequences of the theorems on the final state
-      let queued := fin.bag ++ fin.loc.map (·.2)
-      let conserved := (fin.pushed.length == fin.popped.length + queued.length) &&
-        fin.pushed.all (fun c => fin.popped.contains c || queued.contains c)
-      let s := s.say conserved "no-lost-task" s!"pushed {fin.pushed.length} popped {fin.popped.length} queued {queued.length}"
-      let allExited := (List.range (maxW + 1)).all fun w => fin.act w == .exited || fin.act w == .idle
-      let s := s.say (fin.done && allExited) "workers-left-loop"
-      if fin.cancel then s
-      else s.say (queued.isEmpty && fin.popped.length == fin.pushed.length) "uncancelled-all-popped"
   | "branch" :: phase :: ctl :: exp :: flags =>
     let exp := nat! exp
     let ones := (flags.filter (· == "1")).length
@@ -148,13 +133,31 @@ def handle (s : St) (line : String) : St :=
     let obs := Render.raisedAt (if raise == "none" then none else some (nat! raise))
     let sz : Render.Sizes := ⟨nat! bn, nat! ixn, nat! wn⟩
     let m := Render.render s.alg sz obs
-    let mf := Render.renderFixed s.alg sz obs
+    let mo := Render.renderOld s.alg sz obs
     let show_ (r : Render.Result) : String := match r with
       | none => "null" | some true => "complete" | some false => "partial"
-    let s := s.say (show_ m == real) "render-flow" s!"model {show_ m} real {real} sizes {bn} {ixn} {wn} raise {raise}"
-    let s := s.say (mf == none || mf == some true) "render-repaired-all-or-nothing"
-    if m == some false then { s with out := s.out.push s!"agree-defect case {s.id} render partial; repaired flow gives {show_ mf}" }
-    else s
+    let s := s.say (show_ m == real) "render-flow" s!"model {show_ m} real {real} (pre-fix flow: {show_ mo}) sizes {bn} {ixn} {wn} raise {raise}"
+    -- instance of render_all_or_nothing
+    s.say (m == none || m == some true) "render-all-or-nothing"
+  | kind :: toks =>
+    -- "pool": build phase (WorkerPool::run).  "walkpool": the dual walk of a tree without singletons
+    -- (simplex / hybrid) is the same loop: a branch is a cell that "evaluates" to ambiguous and pushes its
+    -- (already existing) children, any other cell completes at once, `pending--` walks up.
+    if kind != "pool" && kind != "walkpool" then s else
+    let (maxId, maxW) := maxIds toks
+    match replay (Pool.S.init s.n s.workers s.L) (hoistFirstLoops toks) maxId maxW with
+    | .error e => s.say false s!"{kind}-trace" e
+    | .ok fin =>
+      let s := s.say true s!"{kind}-trace {toks.length}"
+      -- consequences of the theorems on the final state
+      let queued := fin.bag ++ fin.loc.map (·.2)
+      let conserved := (fin.pushed.length == fin.popped.length + queued.length) &&
+        fin.pushed.all (fun c => fin.popped.contains c || queued.contains c)
+      let s := s.say conserved "no-lost-task" s!"pushed {fin.pushed.length} popped {fin.popped.length} queued {queued.length}"
+      let allExited := (List.range (maxW + 1)).all fun w => fin.act w == .exited || fin.act w == .idle
+      let s := s.say (fin.done && allExited) "workers-left-loop"
+      if fin.cancel then s
+      else s.say (queued.isEmpty && fin.popped.length == fin.pushed.length) "uncancelled-all-popped"
   | _ => s
 
 def run (_args : List String) (lines : Array String) : Array String :=
